@@ -355,6 +355,14 @@ UNITS['U22k'] = dict(
     assumptions=['R10: Column reduced to (name, size); Options reduced to max_partition_size_bytes', 'A-sha: sha2 replaced by a stand-in crate (key formatting of unsafe names only; not exercised by these name sets)'],
     not_covered=['sanitize_table_name', 'partition_filename formatting', 'names that are not file-system safe (digest keys)', 'lazy load / empty-handle protocol (concurrent)'])
 
+UNITS['U22n'] = dict(
+    kind='native', crate='kani/U22n', bin='vx_u22n', needs_lock=True, timeout_s=900,
+    pool='every set of 1..4 (thorough: 6) column names from a pool of 16 (lower/upper-case pairs, prefixes, digits, underscore, "all", a non-ASCII name, a name with a space), given in two orders, unit sizes under every size limit 1..n and sizes 1,2,1,2.. under the limit 3',
+    title='BOUNDED exhaustive enumeration (native, not a proof): column -> file routing - inner_locustdb::subpartition (whole fn) + the lookup construction of flush_table_buffer and Storage::prepare_compact (slices) + PartitionMetadata::subpartition_key / subpartition_has_been_loaded / mark_subpartition_as_loaded (whole fns): every column is looked up in the file it was written to',
+    assumptions=['BTreeMap cursors, String ordering, sort_by and sha2 are outside both verifiers (U22k is the recorded attempt); the real functions are compiled natively and enumerated over a stated pool (bounded stand-in, reported under coverage.bounded)',
+                 'R10: Column reduced to (name, size); Options reduced to max_partition_size_bytes; PartitionMetadata reduced to the two fields the lookups read'],
+    not_covered=['column sets outside the pool', 'the lookup rebuilt from the catalogue file (MetaStore::deserialize, versions v0-v3)', 'partition file names (sanitize_table_name is U24k)', 'lazy loading protocol around the loaded flag (concurrent)'])
+
 UNITS['U23k'] = dict(
     kind='kani', crate='kani/U23', timeout_s=600,
     title='BOUNDED (strings <= 2 ASCII bytes): column_buffer.rs is_lowercase_hex / is_uppercase_hex',
@@ -543,17 +551,17 @@ PROPS = {
                 technique='contract-based deductive verification (Kani complete + bounded harnesses) of extracted slices',
                 explanation='U13k: loop-free harnesses over all (limit, offset, len) - complete. U21k: LIMIT / OFFSET literals of at most 4 characters over 0-9 . e - (bounded) and the statement list of parse_query for 0, 1, 2 statements (complete). U19 / U27k: the NULL column that stands in for an unknown column has as many rows as the filter keeps (Verus / complete Kani). Everything else about query strings is outside the reach of contracts on this code base.',
                 assumptions=[], not_covered=['sqlparser', 'convert_to_native_expr', 'BatchResult::validate', 'unknown tables / columns handling']),
-    'C07': dict(level='proof', units=['U02', 'U03', 'U04k', 'U04v', 'U04d'],
+    'C07': dict(level='proof', units=['U02', 'U03', 'U04k', 'U04v', 'U04d', 'U22n'],
                 level_text='Verus proofs of the column rebuild kernels used by compaction: ColumnBuffer append with null maps (incl. the incoming-null-map path that only compaction takes), string packing round trip, integer encode / delta / decode kernels; complete Kani proof of the width/offset choice',
-                level_note='plan_compaction, Table::compact swap, eviction / reload (LRU), and the free stack-machine column::decode over dyn Data are not covered; see known findings',
+                level_note='plan_compaction, Table::compact swap, eviction (LRU), and the free stack-machine column::decode over dyn Data are not covered; that a column evicted or compacted is reloaded from the file it was written to is covered only by the bounded native enumeration U22n; see known findings',
                 technique='contract-based deductive verification (Verus + Kani complete) of extracted functions and slices',
                 assumptions=[], not_covered=['column::decode (dyn Data stack machine)', 'plan_compaction / Table::compact', 'LRU eviction and reload']),
-    'C15': dict(level='other', units=['U24k'],
-                level_text='bounded only: Kani harnesses over 2-character names for the table-name cleaning steps and the decision when a directory name must carry the digest of the original name; nothing here is a proof',
-                level_note='very narrow: only "distinct table names never share files, no name can place a file outside the database directory" is touched. The column -> file routing (subpartition + BTreeMap lower_bound lookup) is NOT covered: CBMC did not finish the real std sort / BTreeMap code with String keys in 25 min even for 3 concrete names (unit U22k, kept in the thorough tier as an attempt, verdict ignored when undecided), and Verus has no specs for str ordering or BTreeMap cursors',
-                technique='bounded Kani harnesses (labelled bounded, not counted as discharged obligations) over statement / expression slices of the real sanitize_table_name',
-                explanation='U24k: two bounded Kani harnesses over slices of storage.rs sanitize_table_name - (1) the decision whether the cleaned name is used verbatim or carries the digest of the original, for all cleaned / requested names of two characters over {E,e,-,.,/,_,7,space}; (2) the cleaning steps after lower-casing, for all two-character names over the same alphabet. No obligation is discharged deductively for this property; the column -> file routing is not covered at all.',
-                assumptions=[], not_covered=['column -> sub-partition file routing', 'partition file names', 'names longer than 2 characters, non-ASCII names', 'lazy loading of sub-partitions']),
+    'C15': dict(level='other', units=['U24k', 'U22n'],
+                level_text='bounded only: Kani harnesses over 2-character names for the table-name cleaning steps and the decision when a directory name must carry the digest of the original name; a native bounded enumeration of the real column -> file routing functions (writer subpartition, both lookup constructions, the three reader lookups) over column-name sets from a stated pool; nothing here is a proof',
+                level_note='narrow and bounded: "distinct table names never share files, no name can place a file outside the database directory" for 2-character names, and "every column is looked up in the file it was written to" for sets of up to 4 (thorough: 6) names from a 16-name pool. The routing could not be brought within either verifier: CBMC did not finish the real std sort / BTreeMap code with String keys in 25 min even for 3 concrete names (unit U22k, recorded attempt, belongs to no check), and Verus has no specs for str ordering or BTreeMap cursors; the routing functions are therefore compiled natively and enumerated (U22n, labelled bounded)',
+                technique='bounded Kani harnesses over statement / expression slices of the real sanitize_table_name, plus a bounded native enumeration of the mechanically extracted routing functions (both labelled bounded, not counted as discharged obligations)',
+                explanation='U24k: two bounded Kani harnesses over slices of storage.rs sanitize_table_name - (1) the decision whether the cleaned name is used verbatim or carries the digest of the original, for all cleaned / requested names of two characters over {E,e,-,.,/,_,7,space}; (2) the cleaning steps after lower-casing, for all two-character names over the same alphabet. U22n: inner_locustdb::subpartition, the lookup construction at its two sites and the reader functions of PartitionMetadata, extracted mechanically, compiled natively and run on every set of up to 4 column names from a 16-name pool under every grouping: each column must be looked up in the file it was written to, file keys must be distinct, and the loaded flag must follow the file. No obligation is discharged deductively for this property.',
+                assumptions=[], not_covered=['column sets outside the pool of U22n', 'the lookup rebuilt from the catalogue file (MetaStore::deserialize)', 'partition file names', 'table names longer than 2 characters, non-ASCII table names', 'lazy loading of sub-partitions (concurrent)']),
     'C13': dict(level='proof', units=['U02', 'U27k', 'U17k'],
                 level_text='Verus proofs: a column missing from a batch is padded with NULLs for that batch (extend_to_largest body), a column first seen late reads NULL for all earlier rows (ColumnBuffer::null + push_*), per-column append of every input representation; complete Kani proof that a column missing from a partition is given exactly the rows the WHERE clause keeps, for every filter kind; bounded Kani harnesses (fixed row shapes, labelled bounded) that the client-side event buffer leaves NULL exactly the rows that received no value',
                 level_note='catalogue tables, lazy column_names initialisation, SELECT * expansion and the HashMap iteration around the per-column code are not covered',
